@@ -47,3 +47,15 @@ Proof.
   destruct (marker_implies_complete _ _ _ _ _ _ _ _ _ H f Hin Hm) as [-> _].
   exists (render x). split; [|apply Hd]. rewrite complete_dir_parts, Hx. reflexivity.
 Qed.
+
+(* after a successful save to an absent target, a second save to the same path -- any data, any plan, any
+   saver -- is refused and changes nothing (the name of the target plays no role: paths are opaque) *)
+Theorem second_save_refused : forall A render sv p m xs c0 s1,
+  save A render sv p m xs (init_st FAbsent c0 false) = (Ok tt, s1) ->
+  forall (B : Type) (render2 : B -> bytes) sv2 p2 m2 (ys : list B) c1 lk,
+  save B render2 sv2 p2 m2 ys (init_st (s_fs s1) c1 lk) = (Err EExists, init_st (s_fs s1) c1 lk).
+Proof.
+  intros A render sv p m xs c0 s1 H B render2 sv2 p2 m2 ys c1 lk.
+  apply no_overwrite. rewrite (ok_implies_complete _ _ _ _ _ _ _ _ H).
+  destruct xs as [|x [|y xs]]; reflexivity.
+Qed.
